@@ -65,7 +65,7 @@ def make_case(rng, li, lib):
             lws = [i for i, x in enumerate(g["nodes"]) if x["cls"] == "LW" and i != k]
             if not lws:
                 continue
-            ops.append({"op": "addpre", "n": k, "p": rng.choice(lws)})
+            ops.append({"op": "addpre", "n": k, "p": rng.choice(lws), "via": rng.choice(["direct", "from"])})
             if k not in sealed:
                 nd["pre"] = nd["pre"] + [ops[-1]["p"]]
         expect.append(set(sealed))
@@ -91,7 +91,7 @@ def make_case(rng, li, lib):
             elif r < 0.7:
                 lws = [i for i, x in enumerate(g["nodes"]) if x["cls"] == "LW" and i != k]
                 if lws:
-                    tail.append({"op": "addpre", "n": k, "p": rng.choice(lws)})
+                    tail.append({"op": "addpre", "n": k, "p": rng.choice(lws), "via": rng.choice(["direct", "from"])})
             else:
                 tail.append({"op": rng.choice(["full", "raw"]), "n": k})
     for o in tail:
@@ -113,7 +113,7 @@ def monitor(ctx, case, rec):
         if op["op"] in ("set", "setmeta", "addpre"):
             frozen = k in sealed
             if frozen and out != {"err": "sealed"}:
-                what = {"set": "assignment", "setmeta": "meta flag change", "addpre": "add_pretasks"}[op["op"]]
+                what = {"set": "assignment", "setmeta": "meta flag change", "addpre": "add_pretasks_from" if op.get("via") == "from" else "add_pretasks"}[op["op"]]
                 ctx.monitor_fail(f"mutation-accepted-after-seal:{op['op']}", f"{what} on node {k} accepted although it is reachable from a sealed configuration",
                                  {"graph": case["graph"], "ops": case["ops"]})
                 return
